@@ -722,6 +722,98 @@ def rule_format_verbatim(model):
     return r
 
 
+ARG_MUTATORS = ('pop', 'update', 'setdefault', 'clear', 'popitem',
+                '__setitem__', '__delitem__')
+
+
+def rule_frozen_options(model, rule_id='C15.R11'):
+    r = RuleResult(rule_id, 'the var tag derives its modifier list (and '
+                   'its simple form) from the final option dictionary: the '
+                   'options are not edited after the state derived from '
+                   'them has been computed')
+    fi = model.func('DT_Var', 'Var.__init__')
+    body = fi.node.body
+    # the local holding the parsed options: the value stored as self.args
+    opt = None
+    for n in own_nodes(fi.node):
+        if isinstance(n, ast.Assign) and any(
+                isinstance(t, ast.Attribute) and t.attr == 'args' and
+                isinstance(t.value, ast.Name) and t.value.id == 'self'
+                for t in n.targets) and isinstance(n.value, ast.Name):
+            opt = n.value.id
+    if opt is None:
+        raise AnalysisError(f'{rule_id}: Var.__init__ does not store the '
+                            'option dictionary')
+
+    def top_index(node):
+        cur = node
+        from ..model import parent as _parent
+        while cur is not None and cur not in body:
+            cur = _parent(cur)
+        return body.index(cur) if cur in body else None
+    m_ = table_entries(model)[0]
+    modnames = set(table_entries(model)[2]) | set(
+        getattr(m_, '_dt_pair_names', {}).values())
+    derived = []
+    for n in own_nodes(fi.node):
+        if isinstance(n, ast.Assign) and any(
+                isinstance(t, ast.Attribute) and
+                isinstance(t.value, ast.Name) and t.value.id == 'self' and
+                t.attr != 'args' for t in n.targets) and any(
+                isinstance(x, ast.Name) and x.id == opt
+                for x in ast.walk(n.value)):
+            derived.append(n)
+    if not derived:
+        raise AnalysisError(f'{rule_id}: no state derived from the options '
+                            'found in Var.__init__')
+    first = min(top_index(d) for d in derived)
+    for d in derived:
+        r.instance(fi.where, d.targets[0], 'derived from the options')
+    for n in own_nodes(fi.node):
+        mut = None
+        if isinstance(n, ast.Subscript) and isinstance(
+                n.ctx, (ast.Store, ast.Del)) and \
+                isinstance(n.value, ast.Name) and n.value.id == opt:
+            mut = n
+        elif isinstance(n, ast.Call) and isinstance(n.func, ast.Attribute) \
+                and n.func.attr in ARG_MUTATORS and \
+                isinstance(n.func.value, ast.Name) and \
+                n.func.value.id == opt:
+            mut = n
+        elif isinstance(n, ast.Assign) and any(
+                isinstance(t, ast.Name) and t.id == opt
+                for t in n.targets) and top_index(n) is not None and \
+                top_index(n) > first:
+            mut = n
+        if mut is None:
+            continue
+        # which option?  a constant key that is not a modifier name cannot
+        # make the derived modifier list stale
+        key = None
+        if isinstance(mut, ast.Subscript) and isinstance(
+                mut.slice, ast.Constant):
+            key = mut.slice.value
+        elif isinstance(mut, ast.Call) and mut.func.attr in (
+                'pop', 'setdefault') and mut.args and isinstance(
+                mut.args[0], ast.Constant):
+            key = mut.args[0].value
+        i = top_index(mut)
+        late = i is not None and i > first
+        if key is not None and key not in modnames:
+            r.instance(fi.where, mut, 'not a modifier option')
+            continue
+        r.instance(fi.where, mut, 'AFTER the derived state' if late
+                   else 'before the derived state')
+        if late:
+            r.finding(fi.where, mut, 'the option dictionary is edited '
+                      'after the modifier list / simple form were derived '
+                      'from it: the rendering path that consults the '
+                      'options and the one that uses the derived state '
+                      'disagree (an html_quote added here is never '
+                      'applied on the full path)', node=mut, ctx=fi)
+    return r
+
+
 def rule_fmt_dispatch(model):
     r = RuleResult('C15.R10', 'fmt=NAME resolves to a method of the value '
                    'first, then to a named special format, then to a '
@@ -779,7 +871,7 @@ def rule_fmt_dispatch(model):
 
 RULES = [rule_table, rule_stages, rule_agreements, rule_membership,
          rule_pipeline_order, rule_missing, rule_format_verbatim,
-         rule_fmt_dispatch]
+         rule_fmt_dispatch, rule_frozen_options]
 EXPLANATION = (
     'Table queries on the modifier table and the option grammar of '
     'dtml-var, iteration-source query, statement-order check of the stage '
